@@ -555,7 +555,7 @@ package kcp
 //@   ensures tune.wf()
 //
 //@ pred (tune *autoTune) sameRing() = tune.head == old(tune.head) && tune.tail == old(tune.tail) && tune.count == old(tune.count) && tune.pulses == old(tune.pulses)
-//@ func autoTune.FindPeriod
+//@ func autoTune.FindPeriod counted
 //@   requires tune.wf()
 //@   modifies tune
 //@   ensures tune.wf() && tune.sameRing() && 0 - 1 <= result && result <= 258
@@ -599,6 +599,9 @@ package kcp
 //@   ensures @C16 [matching-genuine-packet-never-retunes] !old(dec.shouldTune) && (old(le16(in, 4)) == 241 || old(le16(in, 4)) == 242)
 //@        && ((old(le32(in, 0)) % old(dec.shardSize) < old(dec.dataShards)) == (old(le16(in, 4)) == 241))
 //@        ==> !dec.shouldTune && dec.dataShards == old(dec.dataShards) && dec.parityShards == old(dec.parityShards) && dec.shardSize == old(dec.shardSize) && dec.paws == old(dec.paws)
+//@   ensures @C16 [a-packet-whose-type-contradicts-its-position-starts-tuning-and-is-not-decoded] old(le32(in, 0)) < old(dec.paws)
+//@        && ((old(le32(in, 0)) % old(dec.shardSize) < old(dec.dataShards)) != (old(le16(in, 4)) == 241))
+//@        ==> len(recovered) == 0 && calls(autoTune.FindPeriod) > old(calls(autoTune.FindPeriod))
 //@   ensures @C07 [emits-only-for-a-complete-group-with-missing-data] len(recovered) > 0 ==> len(pkts) >= dec.dataShards && numDataShard != dec.dataShards
 //@   ensures @C16 [tuning-ends-only-with-a-valid-period] !(autoDS > 0 && autoPS > 0 && autoDS + autoPS < 256) ==> dec.shouldTune && recovered == nil
 //@   ensures @C16 [retune-restarts-group-tracking] dec.shardSize != old(dec.shardSize) ==> dec.newestShardId == old(le32(in, 0)) / dec.shardSize
